@@ -28,6 +28,36 @@ CONFIGS = {
 }
 
 
+def _complete(mod, insts=None):
+    """The property's explanation, completed with what was decided by rules of its RULES list that its own text does not
+    describe (rules shared with other properties): their statements are taken from this run's own instance verdicts."""
+    import re as _re
+    text = mod.EXPLANATION.strip()
+    if not insts:
+        return text
+    add = []
+    for rid, _ in mod.RULES:
+        base = _re.sub(r'[a-z]$', '', rid)
+        if rid in text or base in text or any(a_[0] == base for a_ in add):
+            continue
+        msgs = []
+        seen = set()
+        for _, i in insts:
+            if i.rule != base or not i.ok or '/floor#' in i.key or 'anchor' in i.key:
+                continue
+            tag = _re.sub(r'[@:].*$', '', i.key.rsplit('#', 1)[-1])
+            if tag in seen:
+                continue
+            seen.add(tag)
+            d = _re.sub(r'\s+', ' ', i.detail).strip()
+            msgs.append(d[:170])
+        if msgs:
+            add.append((base, msgs[:5]))
+    if not add:
+        return text
+    return text + ' Also decided for this property (necessary conditions it shares with other properties): ' + ' '.join('%s: %s.' % (r, '; '.join(m)) for r, m in add)
+
+
 class Missing(Exception):
     pass
 
@@ -407,7 +437,7 @@ def main(argv):
         samples.append({'rule': i.rule, 'key': key, 'loc': i.loc, 'config': cfg, 'verdict': 'known-finding' if key in knownhit else 'violated', 'what': i.detail[:600]})
     level = getattr(mod, 'LEVEL', 'other')
     cov = {
-        'explanation': mod.EXPLANATION.strip(),
+        'explanation': _complete(mod, all_insts),
         'rule': 'one case = one rule instance (a call site, store, branch edge, function or type obligation found in the MIR/type facts of /repo) '
                 'evaluated by a dominance / graph-cut / term-shape / inventory rule; distinct = distinct instance keys with verdict ok; '
                 'floors and anchor checks are counted in evaluations but not in distinct_nontrivial',
